@@ -2456,6 +2456,8 @@ func translate(repo string, p *pkgFiles, outPath string) {
 		{fn: "HandleDeleteService", recv: "Server", mutRecv: true, trace: true},
 		{fn: "HandlePutUser", recv: "Server", as: "putUserTail", trace: true, anchor: "user.Name = r.PathValue(\"id\")"},
 		{fn: "HandleIDPInitiated", recv: "Server", trace: true},
+		{fn: "HandleDeleteUser", recv: "Server", trace: true},
+		{fn: "HandleDeleteSession", recv: "Server", trace: true},
 		{fn: "GetServiceProvider", recv: "Server"},
 		{fn: "initializeServices", recv: "Server", mutRecv: true},
 		{fn: "GetSession", recv: "Server", as: "credentialGuards", trace: true, inside: "if r.Method == \"POST\" && r.PostForm.Get(\"user\") != \"\" {", until: "session := &saml.Session{"},
